@@ -62,7 +62,7 @@ func harnessC10DurableReadChain() {
 	vCover("chain-done")
 }
 
-//verif:entry property=C11 tier=both bounds="bus.Replay over the durable-streams store (paged path, real client library, model server optionally cutting responses short, lenient or strict about offsets it did not issue): log length n<=N, replay batch size b in [-1,N+1], optional failing read request" cover="nil-complete" conformance=off N_quick=3 N_thorough=4
+//verif:entry property=C11 tier=both bounds="bus.Replay over the durable-streams store (paged path, real client library, model server optionally cutting responses short, lenient or strict about offsets it did not issue): log length n<=N, replay batch size b in [-1,N+1], optional failing read request; then a second replay resumed from the offset of any delivered event" cover="nil-complete,resumed-from-event-offset" conformance=off N_quick=3 N_thorough=4
 func harnessC11DurableReplay() {
 	N := vParam("N", 3)
 	vmDSChunked = vBool()
@@ -77,16 +77,40 @@ func harnessC11DurableReplay() {
 	if armed {
 		vmDSFailRead = vmDSReads + vInt(0, N)
 	}
+	// drawn before any read: the model server draws its own choices (where a response is cut) while it
+	// answers, and the native replay has no counterpart for those
+	second := vBool()
+	k := vInt(0, N-1)
 	got := 0
 	inOrder := true
+	var seenOffs []eventbus.Offset
 	rerr := bus.Replay(bg, eventbus.OffsetOldest, func(e *eventbus.StoredEvent) error {
 		if got < n && !dsSame(e, recs[got]) {
 			inOrder = false
 		}
 		got++
+		seenOffs = append(seenOffs, e.Offset)
 		return nil
 	})
 	vmDSFailRead = -1
+	if !armed && rerr == nil && got == n && second && k < n {
+		// a second replay resumed from the offset one of the delivered events carried: everything behind that
+		// event, or an error (the per-event offsets of this store are synthetic; a server that is lenient about
+		// offsets it did not issue answers from the end of that chunk - the recorded finding)
+		got2, ok2 := 0, true
+		rerr2 := bus.Replay(bg, seenOffs[k], func(e *eventbus.StoredEvent) error {
+			if k+1+got2 >= n || !dsSame(e, recs[k+1+got2]) {
+				ok2 = false
+			}
+			got2++
+			return nil
+		})
+		vAssertK(ok2, "gap-free-prefix-in-order", "KF-C11-durable-event-offset-resume", !vmDSStrict)
+		if rerr2 == nil {
+			vAssertK(got2 == n-1-k, "nil-implies-complete", "KF-C11-durable-event-offset-resume", !vmDSStrict)
+		}
+		vCover("resumed-from-event-offset")
+	}
 	if !armed {
 		vAssert(rerr == nil, "no-fault-no-error")
 	}
